@@ -58,6 +58,9 @@ type c11Run struct {
 	Contrib func(pod int, typ, res string) (v int64, known bool)
 	// Elig returns "" when the statement's policy allows task to evict pod, else the reason.
 	Elig func(task, pod int) string
+	// Certain (optional) tells whether pod certainly belongs to the documented victim set of task whether or not the
+	// task's list contains it: an already-evicted, still terminating pod of that set counts as pending release.
+	Certain func(task, pod int) bool
 	// MayPrecede tells whether a may be taken before b under the published order of task (key(a) <= key(b)).
 	MayPrecede func(task, a, b int) (bool, string)
 	Events     []c11Event
@@ -149,14 +152,17 @@ func c11Judge(r *c11Run, count c11Counter) []c11Finding {
 	for k := range last {
 		last[k] = -1
 	}
-	// missing vector of task t at this moment; strict additionally counts not-yet-told already-evicted pods of t.List
-	missing := func(t *c11Task, strict bool) (map[string]int64, bool) {
+	// missing vector of task k at this moment; strict additionally counts the not-yet-told already-evicted pods that are
+	// in the task's list or that certainly belong to the task's documented victim set (a terminating victim of an
+	// earlier round releases its resources whether or not the list builder kept it: seed C11-5)
+	missing := func(k int, strict bool) (map[string]int64, bool) {
+		t := &r.Tasks[k]
 		m := map[string]int64{}
 		released := false
 		for res, tv := range t.Target {
 			m[res] = tv
 			for p := 0; p < n; p++ {
-				cnt := succ[p] || told[p] || (strict && r.Already[p] && c11InList(t, p))
+				cnt := succ[p] || told[p] || (strict && r.Already[p] && (c11InList(t, p) || (r.Certain != nil && r.Certain(k, p))))
 				if !cnt {
 					continue
 				}
@@ -194,16 +200,16 @@ func c11Judge(r *c11Run, count c11Counter) []c11Finding {
 		if failedBefore[p] {
 			count("retry_after_failed_eviction", 1)
 		}
-		lazy, released := missing(t, false)
+		lazy, released := missing(k, false)
 		if cl, what := c11NeedVerdict(r, t, lazy, p, count); cl != "" {
 			return &c11Finding{cl, fmt.Sprintf("task %s evicts pod %d: %s", t.Name, p, what), k}
 		}
 		if released {
 			count("needed_judged_after_partial_release", 1)
 		}
-		strict, _ := missing(t, true)
+		strict, _ := missing(k, true)
 		if cl, what := c11NeedVerdict(r, t, strict, p, nil); cl != "" {
-			return &c11Finding{cl + "|pending-release-later-in-list", fmt.Sprintf("task %s evicts pod %d although pods of its own list that are already evicted and still terminating were not counted yet: %s", t.Name, p, what), k}
+			return &c11Finding{cl + "|pending-release-later-in-list", fmt.Sprintf("task %s evicts pod %d although pods of its victim set that are already evicted and still terminating were not counted yet: %s", t.Name, p, what), k}
 		}
 		return nil
 	}
@@ -261,7 +267,7 @@ func c11Judge(r *c11Run, count c11Counter) []c11Finding {
 	// vacuity of the stop clauses and the under-eviction diagnostic
 	for k := range r.Tasks {
 		t := &r.Tasks[k]
-		lazy, _ := missing(t, false)
+		lazy, _ := missing(k, false)
 		shortLeft := false
 		positive := false
 		for res, tv := range t.Target {
